@@ -2,6 +2,7 @@ package pquery
 
 import (
 	"context"
+	"os"
 	"testing"
 	"time"
 )
@@ -42,6 +43,19 @@ func TestBuild(t *testing.T) {
 		}
 		s.close()
 	}
+}
+
+// TestReplay re-executes the replay file named by PQ_REPLAY.
+func TestReplay(t *testing.T) {
+	path := os.Getenv("PQ_REPLAY")
+	if path == "" {
+		t.Skip("PQ_REPLAY not set")
+	}
+	out, err := ReplayC20(context.Background(), path)
+	if err != nil {
+		t.Fatal(err)
+	}
+	t.Log("\n" + out)
 }
 
 func TestProfileC20(t *testing.T) {
